@@ -42,7 +42,7 @@ def run(ctx):
     ctx.coverage["disagreements_model"] = len(bad)
     # S: the checker on every program
     terms = [(prog.coq_program(p), "1%Z") for p, _ in pool.programs]
-    fails = C.coq_eval_mismatches("c06s", tircheck.HEADER, terms, "(fun a b => negb (Z.eqb a 0))", "(cfg_case E0)", "callback * Z", shard_size=40, scope="Z_scope")
+    fails = C.coq_eval_mismatches("c06s", tircheck.HEADER, terms, "(fun a b => negb (Z.eqb a 0))", "(cfg_case E0)", "callback * Z", shard_size=250, scope="Z_scope")
     ctx.coverage["cfg_ok_failures"] = len(fails)
     for i in fails:
         if i in bad:
